@@ -128,7 +128,8 @@ class Abstractor:
         walpath = None
         walstate = "idle"     # expecting: idle | len | body | ck
         bodylen = 0
-        pending_issue = None  # index in out of an issue event still lacking its cmds
+        pending_issue = None  # index in out of an issue event still collecting its cmds (until its ack)
+        pending_flush = None  # index in out of a flush event still lacking its size
         cur_op = None         # ("req", n) / ("ckpt", None) while inside a driver op
         ckpt_wrote = False
         for i, e in enumerate(events):
@@ -141,9 +142,10 @@ class Abstractor:
                 kind, n = self.meta[opidx]
                 if kind == "req":
                     if what == "issue":
-                        out.append({"e": "issue", "req": n, "cmds": None, "src": i})
+                        out.append({"e": "issue", "req": n, "cmds": [], "src": i})
                         pending_issue = len(out) - 1
                     else:
+                        pending_issue = None
                         if parts[5] == "ok":
                             out.append({"e": "ack", "req": n, "src": i})
                 elif kind == "ckpt":
@@ -188,8 +190,10 @@ class Abstractor:
                     out[-1]["frag"]["id"] = rid
                     out.append({"e": "wal", "frag": {"k": "BODY", "id": rid, "cmds": acmds}, "src": i})
                     if pending_issue is not None:
-                        out[pending_issue]["cmds"] = acmds
-                        pending_issue = None
+                        out[pending_issue]["cmds"] = out[pending_issue]["cmds"] + acmds
+                    if pending_flush is not None:
+                        out[pending_flush]["n"] = len(acmds)
+                        pending_flush = None
                     self.last_body_id = rid
                     walstate = "ck"
                     continue
@@ -203,8 +207,11 @@ class Abstractor:
                 if len(data) == 11 and data[0] == 1:
                     tid = struct.unpack_from("<q", data, 1)[0]
                     d, st = data[9], data[10]
-                    if d == 1 and cur_op == "ckpt" and st == 0:
+                    if d == 1 and st == 0:
                         out.append({"e": "ckpt", "src": i})
+                    if d == 0 and st == 0:
+                        out.append({"e": "flush", "n": 0, "src": i})
+                        pending_flush = len(out) - 1
                     out.append({"e": "wal", "frag": {"k": "TI", "id": self.rank(tid), "d": "WAL" if d == 0 else "CKPT",
                                                      "st": {0: "PREP", 1: "INTENDED", 2: "DONE"}[st]}, "src": i})
                     continue
@@ -238,7 +245,4 @@ class Abstractor:
             else:
                 index, doff, dlen = struct.unpack("<qqq", data)
                 out.append({"e": "idx", "f": f, "s": self.slot_of_index(f, index), "off": doff - base + 1, "len": dlen, "src": i})
-        if pending_issue is not None:
-            # the request never reached its WAL body: it has no abstract effect yet; give it its script commands
-            out[pending_issue]["cmds"] = []
         return out
